@@ -241,6 +241,10 @@ func (o *OvsdbServer) Monitor(client *rpc2.Client, args []json.RawMessage, reply
 	if err := json.Unmarshal(args[2], &request); err != nil {
 		return err
 	}
+	// serialize with transactions: one that has notified the monitors but not
+	// yet committed would otherwise be missed by this monitor for good
+	o.txnMutex.Lock()
+	defer o.txnMutex.Unlock()
 	o.monitorMutex.Lock()
 	defer o.monitorMutex.Unlock()
 	clientMonitors, ok := o.monitors[client]
@@ -287,6 +291,10 @@ func (o *OvsdbServer) MonitorCond(client *rpc2.Client, args []json.RawMessage, r
 	if err := json.Unmarshal(args[2], &request); err != nil {
 		return err
 	}
+	// serialize with transactions: one that has notified the monitors but not
+	// yet committed would otherwise be missed by this monitor for good
+	o.txnMutex.Lock()
+	defer o.txnMutex.Unlock()
 	o.monitorMutex.Lock()
 	defer o.monitorMutex.Unlock()
 	clientMonitors, ok := o.monitors[client]
@@ -333,6 +341,10 @@ func (o *OvsdbServer) MonitorCondSince(client *rpc2.Client, args []json.RawMessa
 	if err := json.Unmarshal(args[2], &request); err != nil {
 		return err
 	}
+	// serialize with transactions: one that has notified the monitors but not
+	// yet committed would otherwise be missed by this monitor for good
+	o.txnMutex.Lock()
+	defer o.txnMutex.Unlock()
 	o.monitorMutex.Lock()
 	defer o.monitorMutex.Unlock()
 	clientMonitors, ok := o.monitors[client]
